@@ -13,6 +13,7 @@ func init() {
 			ruleDead("C10.caps", []string{"(ClipperOffset).offsetOpenPath"}, offsetCapMech, 6,
 				"an open path's ends are produced only by these calls; when they are dead the stroke has no caps and the two offset sides are joined through the bare end points (InflatePaths64({{0,0},{100,0}},10,Miter,Butt) returns [])"),
 			ruleEndDispatch("C10.end"),
+			ruleFreshScratch("C10.fresh", "ClipperOffset", "pathOut"),
 			ruleReach("C10.reach", []reachReq{{entry: "InflatePaths64", must: append([]string{"(ClipperOffset).offsetOpenPath", "(ClipperOffset).offsetOpenJoined", "(ClipperOffset).offsetPolygon", "Ellipse64"}, offsetCapMech...),
 				whyMust: "every open end type is served by one of these constructors; an unreachable one means that end type cannot be produced"}}),
 		},
